@@ -10,6 +10,7 @@ import (
 	"net/http"
 	"strings"
 	"sync"
+	"time"
 
 	"github.com/vektah/gqlparser/v2"
 	"github.com/vektah/gqlparser/v2/ast"
@@ -47,6 +48,7 @@ type Service struct {
 	Schema *ast.Schema
 	Data   *Data // shared with all services of the federation
 	Fault  Fault
+	Delay  func(c *Call) time.Duration // optional: slow answers
 
 	mu    sync.Mutex
 	Calls []*Call
@@ -232,6 +234,11 @@ func (s *Service) serve(contentType string, body []byte) (*http.Response, error)
 	for i, rq := range reqs {
 		c := &Call{Service: s.Index, HTTPCall: httpNo, Position: i, BatchSize: len(reqs), Query: rq.Query, Variables: rq.Variables, OpName: rq.OperationName, Multipart: files != nil, Files: files}
 		ans := s.Answer(c)
+		if s.Delay != nil {
+			if d := s.Delay(c); d > 0 {
+				time.Sleep(d)
+			}
+		}
 		s.mu.Lock()
 		s.Calls = append(s.Calls, c)
 		s.mu.Unlock()
